@@ -425,6 +425,12 @@ class Gen:
                     occ = int(t[2]) if len(t) > 2 else 1
                     cur = ("inject", len(injects))
                     injects.append(dict(pos=pos, re=rx(t[1]), occ=occ, text=[], tl=tl))
+                elif c == "rewrite_rev":
+                    cnt = int(t[0]) if t else 1
+                    rewrites.append(dict(pat=r"for (\w+) in \(([^()]*?)\.\.([^()]*(?:\(\))?[^()]*?)\)\.rev\(\) \{",
+                                         rep=r"let mut \1_rev: usize = \3; while \1_rev > \2 { \1_rev = \1_rev - 1; let \1 = \1_rev;",
+                                         count=cnt, tl=tl))
+                    cur = ("none", None)
                 elif c == "rewrite":
                     # //@ rewrite /pattern/ => /replacement/ [count]
                     cnt = int(t[3]) if len(t) > 3 else 1
@@ -524,6 +530,17 @@ class Gen:
         return sig[:ts] + f"({binder}: {ty})" + trailing_ws + tail
 
     def _emit_body(self, src, ob, body, body_mask, loops, injects, rewrites, rel_tpl, tags, fnname, rel, name):
+        # logged rewrites (rules R1..R8) are applied to the repo text first
+        for rw in rewrites:
+            body2, nsub = re.subn(rw["pat"], rw["rep"].replace("\\n", "\n"), body)
+            if nsub != rw["count"]:
+                raise Undecided(f"lost anchor: rewrite /{rw['pat']}/ expected {rw['count']} got {nsub} in {rel}::{name} ({rel_tpl}:{rw['tl']})")
+            if body2.count("\n") != body.count("\n"):
+                self.log.append(f"note: rewrite in {rel}::{name} changes the line count; source map approximate below it")
+            body = body2
+            self.log.append(f"REWRITE in {rel}::{name}: /{rw['pat']}/ => /{rw['rep']}/ x{nsub}")
+        if rewrites:
+            body_mask = code_mask(body)
         # insertion points: list of (offset_in_body, text, origin)
         ins = []
         # loops
@@ -549,7 +566,7 @@ class Gen:
                 ins.append((loop_heads[idx], 0, "\n" + tx, ("tpl", rel_tpl, tl)))
             ins.append((loop_heads[idx], 1, "\n", None))
         for inj in injects:
-            ms = list(re.finditer(inj["re"], body_mask))
+            ms = list(re.finditer(inj["re"], body_mask, re.M))
             if len(ms) < inj["occ"]:
                 raise Undecided(f"lost anchor: inject /{inj['re']}/ #{inj['occ']} in {rel}::{name} ({rel_tpl}:{inj['tl']})")
             mo = ms[inj["occ"] - 1]
@@ -562,6 +579,7 @@ class Gen:
                 at = mo.end()
             else:
                 raise Undecided(f"{rel_tpl}:{inj['tl']}: bad inject position")
+            check_ghost_only(inj["text"], rel_tpl)
             for q, (tl, tx) in enumerate(inj["text"]):
                 ins.append((at, q, tx + "\n", ("tpl", rel_tpl, tl)))
         ins.sort(key=lambda t: (t[0], t[1]))
@@ -575,24 +593,6 @@ class Gen:
                 pos = at
             segs.append((tx, origin))
         segs.append((body[pos:], ("repo", src.rel, base_line + body.count("\n", 0, pos))))
-        # apply rewrites only on repo segments, log each
-        if rewrites:
-            for rw in rewrites:
-                total = 0
-                new = []
-                for (tx, origin) in segs:
-                    if origin and origin[0] == "repo":
-                        tx2, nsub = re.subn(rw["pat"], rw["rep"].replace("\\n", "\n"), tx)
-                        if nsub and tx2.count("\n") != tx.count("\n"):
-                            pass  # line numbers after this point in the segment are approximate
-                        total += nsub
-                        new.append((tx2, origin))
-                    else:
-                        new.append((tx, origin))
-                if total != rw["count"]:
-                    raise Undecided(f"lost anchor: rewrite /{rw['pat']}/ expected {rw['count']} got {total} in {rel}::{name} ({rel_tpl}:{rw['tl']})")
-                segs = new
-                self.log.append(f"REWRITE in {rel}::{name}: /{rw['pat']}/ => /{rw['rep']}/ x{total}")
         # emit line by line, merging segments
         cur_text, cur_origin = "", None
         for (tx, origin) in segs:
@@ -607,6 +607,25 @@ class Gen:
                     cur_origin = origin
                 cur_text += part
         self.out.emit(cur_text, cur_origin, tags, fnname)
+
+
+GHOST_PREFIX = re.compile(r"^(proof\s*\{|let ghost |let tracked |assert\(|assert |broadcast use |reveal\(|$)")
+
+
+def check_ghost_only(lines, rel_tpl):
+    """Injected text must be ghost code: every statement that starts at brace depth 0 of the injection
+    has to begin with proof{ / let ghost / assert / broadcast use / reveal. Inside `proof { }` Verus' own
+    mode checker rejects executable code, so nothing injected can change what the function computes."""
+    depth = 0
+    for (tl, tx) in lines:
+        m = code_mask(tx)
+        st = m.strip()
+        if depth == 0 and not GHOST_PREFIX.match(st):
+            raise Undecided(f"{rel_tpl}:{tl}: injected text is not ghost-only: `{tx.strip()}`")
+        depth += m.count("{") - m.count("}")
+        depth += m.count("(") - m.count(")")
+    if depth != 0:
+        raise Undecided(f"{rel_tpl}:{lines[0][0]}: unbalanced injected block")
 
 
 HEADER = """// GENERATED by /verif/tools/vx.py from the current working tree of {repo}; do not edit.
